@@ -169,9 +169,9 @@ theorem parsed_den (chunks : List Str) (h0 m0 sn0 sd0 dc0 : Nat)
     · cases heq
   · cases heq
 
-theorem timedCore_decided (disc t : Str) (d : Nat) (hg : getDistance 8 disc = .ok (some d)) (h m c : Nat)
+theorem timedCore_decided (disc t : Str) (dist : Option Nat) (hg : getDistance 8 disc = .ok dist) (h m c : Nat)
     (hr : timedCore disc t = .time h m c) :
-    ∃ h0 m0 sn0 dc0, timedDecide disc (some d) h0 m0 sn0 (10 ^ dc0) dc0 = .time h m c := by
+    ∃ h0 m0 sn0 dc0, timedDecide disc dist h0 m0 sn0 (10 ^ dc0) dc0 = .time h m c := by
   unfold timedCore at hr
   rw [hg] at hr
   simp only at hr
